@@ -112,6 +112,60 @@ theorem distinct_names_resolve (ds : List DeclInfo)
   · rw [hik]; exact hk
   · exact absurd hs' (hd i k d d' hi hd' hik s hs)
 
+/-! ### Const and var groups (`declUnits`) -/
+
+/-- Every spec of a group with several specs is a unit of its own, in source order, and nothing else is added:
+the units of a package are its single declarations and the specs of its groups. -/
+theorem units_of_group (specs : List DeclInfo) (h : 2 ≤ specs.length) : unitsOf (.group specs) = specs := by
+  simp only [unitsOf]
+  rw [if_neg (by omega)]
+
+theorem units_append (a b : List TopDecl) : declUnits (a ++ b) = declUnits a ++ declUnits b := by
+  simp [declUnits, List.flatMap_append]
+
+theorem spec_is_a_unit (pre post : List TopDecl) (specs : List DeclInfo) (h : 2 ≤ specs.length) (k : Nat) (d : DeclInfo)
+    (hk : specs[k]? = some d) :
+    (declUnits (pre ++ .group specs :: post))[(declUnits pre).length + k]? = some d := by
+  have e : declUnits (pre ++ .group specs :: post) = declUnits pre ++ (specs ++ declUnits post) := by
+    rw [units_append]
+    simp [declUnits, List.flatMap_cons, units_of_group specs h]
+  rw [e, List.getElem?_append_right (by omega)]
+  have hlt : k < specs.length := by
+    rcases Nat.lt_or_ge k specs.length with h' | h'
+    · exact h'
+    · rw [List.getElem?_eq_none h'] at hk; cases hk
+  simp only [Nat.add_sub_cancel_left]
+  rw [List.getElem?_append_left hlt]
+  exact hk
+
+/-- **Definition before use at the level of specs.**  Whatever the declarations of the package are — functions, types,
+const and var groups in any order, a spec mentioning specs later in its own group or in other groups — if the dependency
+graph of the UNITS is acyclic apart from self-loops, every unit comes after the units it mentions.  (Instance of
+`emit_before_use` at the units `declUnits` yields; `Decls` and the hook both walk exactly these.) -/
+theorem specs_emitted_before_use (tops : List TopDecl) (rank : Nat → Nat)
+    (hacyclic : ∀ i, i < (declUnits tops).length → ∀ j ∈ adj (declUnits tops) i, j ≠ i → rank j < rank i) :
+    ∀ i j, i < (declUnits tops).length → j ∈ adj (declUnits tops) i → j ≠ i →
+      (emitOrder (declUnits tops)).idxOf j < (emitOrder (declUnits tops)).idxOf i :=
+  emit_before_use (declUnits tops) rank hacyclic
+
+/-- `const ( A = B + 1; B = 1 )`: as units of their own, `B` is emitted before `A` … -/
+example : emitOrder (declUnits [.group [⟨["A"], ["B"]⟩, ⟨["B"], []⟩]]) = [1, 0] := by decide
+
+/-- … while the group as one unit keeps the source order `A, B` whatever the specs mention (the defect repaired by
+374b9a4: the only unit depends on itself, and its specs are printed as written). -/
+example : declGroups [.group [⟨["A"], ["B"]⟩, ⟨["B"], []⟩]] = [⟨["A", "B"], ["B"]⟩] := by decide
+
+/-- Two groups that mention each other spec by spec (`A → X`, `Y → B`): acyclic at the level of specs, a 2-cycle at the
+level of groups.  The units come out in a valid order: `B, X, A, Y`. -/
+example : emitOrder (declUnits [.group [⟨["A"], ["B", "X"]⟩, ⟨["B"], []⟩], .group [⟨["X"], []⟩, ⟨["Y"], ["B"]⟩]]) = [1, 2, 0, 3] := by
+  decide
+
+example : ∀ i, i < 4 → ∀ j ∈ adj (declUnits [.group [⟨["A"], ["B", "X"]⟩, ⟨["B"], []⟩], .group [⟨["X"], []⟩, ⟨["Y"], ["B"]⟩]]) i, j ≠ i →
+    (fun k => [1, 0, 0, 1].getD k 0) j < (fun k => [1, 0, 0, 1].getD k 0) i := by decide
+
+/-- a group of one spec, or none, is the unit it always was -/
+example : declUnits [.group [⟨["A"], ["B"]⟩], .group [], .single ⟨["f"], ["A"]⟩] = [⟨["A"], ["B"]⟩, ⟨[], []⟩, ⟨["f"], ["A"]⟩] := by decide
+
 /-! ### Non-vacuity: concrete packages, evaluated by the kernel -/
 
 /-- Two files: `a.go` declares `A` (mentions `Z`), `B`, `K`; `z.go` declares `Z` (mentions `B`). -/
